@@ -58,12 +58,17 @@ def tree_hash(repo=None):
         with open(f, "rb") as fh:
             h.update(fh.read())
         h.update(b"\0")
-    # the extractor itself is part of the key
-    for f in (os.path.join(DRIVER_DIR, "src", "main.rs"), os.path.join(PROTO_DIR, "src", "main.rs")):
+    # the MIR extractor itself is part of the key (the syntax-tree extractor keys its own output: ensure_proto)
+    for f in (os.path.join(DRIVER_DIR, "src", "main.rs"),):
         if os.path.exists(f):
             with open(f, "rb") as fh:
                 h.update(fh.read())
     return h.hexdigest()[:20]
+
+
+def _proto_tool_hash():
+    f = os.path.join(PROTO_DIR, "src", "main.rs")
+    return hashlib.sha256(open(f, "rb").read()).hexdigest()[:10] if os.path.exists(f) else "none"
 
 
 class _Lock:
@@ -212,7 +217,7 @@ def ensure_proto(repo=None):
     build_tools()
     h = tree_hash(repo)
     d = os.path.join(CACHE, "facts", h, "proto")
-    out = os.path.join(d, "schema.json")
+    out = os.path.join(d, "schema-%s.json" % _proto_tool_hash())
     if os.path.exists(out):
         return out
     with _Lock("proto.lock"):
